@@ -58,10 +58,11 @@ PROPS = {
         "explanation": "integer/float/char/bool/unit/option conversions at the host boundary, full input domain",
     },
     "C15": {
-        "units": ["genv", "stw", "roots", "intr"],
+        "units": ["genv", "stw", "estk", "roots", "intr"],
         "trusted_base": COMMON_TB + [
             "units/genv/prelude.rs: the global table as a 4-slot table that logs its updates (contract of SharedVectorWrapper proved in unit env), Env::{drain_env, default_env, update_env} and Synchronizer::{stop_threads, resume_threads, call_per_ctx} as ghost recorders over two other thread contexts, enter_safepoint runs its closure once",
             "units/roots/prelude_mark.rs (see C04): Synchronizer::{stop_threads, enumerate_stacks, resume_threads} and the marker as ghost recorders",
+"units/estk/prelude.rs: the marker context as a ghost recorder, AtomicCell / Mutex as cells, thread handles as custom values with a downcast, reduced SteelThread with the four root-holding fields; std Arc / Weak executed as they are",
             "units/stw/prelude.rs: AtomicCell as a plain cell, the mutex around the thread list as a cell, thread handles as custom values with a downcast, Thread::unpark as a ghost counter; ThreadState / ThreadStateController extracted verbatim",
             "units/intr/prelude.rs (see C17): AtomicCell as a plain cell, std::thread::park shadowed by a ghost stub",
         ],
@@ -88,16 +89,17 @@ PROPS = {
         "explanation": "SymbolMap operations and the global-slot recycler's bytecode scan under contract; sequences bounded (maps/sets are loop-based models)",
     },
     "C04": {
-        "units": ["heap", "heapo", "roots", "pmark"],
+        "units": ["heap", "heapo", "roots", "pmark", "estk"],
         "trusted_base": COMMON_TB + [
             "units/heap/prelude.rs: StandardShared=Arc / WeakShared=Weak (as crate::gc defines them for `sync`), MutContainer as RefCell with read()/write(), reduced SteelVal, channel stubs, log no-op",
             "std Arc/Weak/RefCell/Vec are executed as compiled by Kani",
             "units/roots/prelude_mark.rs: MarkAndSweepContext::push_back, MARKER.mark, Synchronizer::{stop_threads, enumerate_stacks, resume_threads} and Roots::increment_generation as ghost recorders; the marker's work list (a Vec in the real struct) as a 24-slot array with push and a slice view; GLOBAL_ROOTS as a lock around one Roots value",
+"units/estk/prelude.rs: the marker context as a ghost recorder, AtomicCell / Mutex as cells, thread handles as custom values with a downcast, reduced SteelThread with the four root-holding fields; std Arc / Weak executed as they are",
             "units/pmark/prelude.rs: payload types of the value kinds (real field names), im collections as sequences with the same iteration API, push_back / save of the by-reference marker as ghost recorders, reduced SteelVal",
             "units/roots/prelude_vm.rs: Heap::{allocate, allocate_vector, allocate_vector_iter, collection} as ghost recorders of the root sets they are handed; SteelThread with the root-holding fields only (checked against the real struct); enter_safepoint runs its closure once",
         ],
         "assumptions": [
-            "root enumeration is decided for Heap::mark (every root class it is handed reaches the marker) and for the VM call sites make_box / make_mutable_vector / make_mutable_vector_iter / gc_collect / new_box_handler / the `box` primitive (they hand over the whole operand stack, every frame, all globals, all thread-local slots); the by-reference marker that runs in `sync` builds: continuation, container, closure, transducer, reducer and syntax-object arms (unit pmark); Synchronizer::enumerate_stacks (other threads' stacks), values that live only in Rust locals of native functions, the list / custom-type / heap-handle arms of the by-reference marker and its worker threads are NOT covered",
+            "root enumeration is decided for Heap::mark (every root class it is handed reaches the marker) and for the VM call sites make_box / make_mutable_vector / make_mutable_vector_iter / gc_collect / new_box_handler / the `box` primitive (they hand over the whole operand stack, every frame, all globals, all thread-local slots); the by-reference marker that runs in `sync` builds: continuation, container, closure, transducer, reducer and syntax-object arms (unit pmark); Synchronizer::enumerate_stacks (unit estk: a parked or forked thread contributes its stack, every frame's captures, the current frame's captures and its thread-local slots) for threads that HAVE published themselves - the wait for that is not decided; values that live only in Rust locals of native functions, the list / custom-type / heap-handle arms of the by-reference marker and its worker threads are NOT covered",
             "free lists of at most 3 slots; the growth path inside allocate (EXTEND_CHUNK = 25600 slots) is out of CBMC's reach: allocate is proved for `a free slot remains`, grow_by separately",
         ],
         "explanation": "free-list allocate / weak collection / recount / grow and the mark-bit protocol under contract (bounded sizes)",
